@@ -148,6 +148,7 @@ fn stash_clone_first() -> Option<Waker> {
 }
 
 fn do_op(op: &str) {
+    sched::ghost(format!("op:{}", op));
     match op {
         "run" => {
             let r = RUNQ.lock().unwrap().pop();
